@@ -416,7 +416,8 @@ func c26RefV1(s []byte) c26Expect {
 	if f[1] == "TCP4" && !(src.Is4() && dst.Is4()) {
 		return bad
 	}
-	if f[1] == "TCP6" && !(src.Is6() && dst.Is6() && !strings.Contains(f[2], ".") && !strings.Contains(f[3], ".")) {
+	dotted := func(text string, a netip.Addr) bool { return strings.Contains(text, ".") && !a.Is4In6() }
+	if f[1] == "TCP6" && !(src.Is6() && dst.Is6() && !dotted(f[2], src) && !dotted(f[3], dst)) {
 		return bad
 	}
 	sp, ok1 := c26DecPort(f[4])
@@ -472,9 +473,16 @@ func c26GenAddr6(t *rapid.T, label string) netip.Addr {
 		copy(b[8:], rapid.SliceOfN(rapid.Byte(), 8, 8).Draw(t, label))
 	}
 	a := netip.AddrFrom16(b)
-	if a.Is4In6() { // keep genuinely IPv6 (v1 text form would need dotted notation)
+	if a.Is4In6() {
 		b[0] = 0x20
 		a = netip.AddrFrom16(b)
+	}
+	if rapid.IntRange(0, 5).Draw(t, label+"-mapped") == 0 {
+		// IPv4-mapped IPv6 (::ffff:a.b.c.d): what a dual-stack load balancer reports for IPv4 peers
+		var m [16]byte
+		m[10], m[11] = 0xff, 0xff
+		copy(m[12:], rapid.SliceOfN(rapid.Byte(), 4, 4).Draw(t, label+"-v4"))
+		a = netip.AddrFrom16(m)
 	}
 	return a
 }
@@ -551,7 +559,30 @@ func c26GenReadSizes(t *rapid.T) ([]int, string) {
 	}
 }
 
-func c26GenTLVs(t *rapid.T) []byte {
+// c26GenTLVs draws the TLV section that follows an address block of blockLen bytes. One case
+// in eight pads the header with a NOOP TLV so that the v2 length field lands around the sizes
+// where buffering matters: 4080 (16+4080 = bufio's 4096), 8192, and the 65535 limit.
+func c26GenTLVs(t *rapid.T, blockLen int) []byte {
+	if rapid.IntRange(0, 7).Draw(t, "tlv-big?") == 3 {
+		payloadLen := rapid.SampledFrom([]int{4079, 4080, 4081, 4096, 4100, 8176, 8192, 8193, 20000, 65534, 65535}).Draw(t, "tlv-payload-len")
+		var out []byte
+		if rapid.Bool().Draw(t, "tlv-authority-first") {
+			out = append(out, 0x02, 0x00, 0x0b)
+			out = append(out, "kafka.local"...)
+		}
+		l := payloadLen - blockLen - len(out) - 3
+		if l >= 0 {
+			typ := rapid.SampledFrom([]byte{0x04, 0x04, 0xEA, 0xE0}).Draw(t, "tlv-big-type")
+			out = append(out, typ, byte(l>>8), byte(l))
+			pad := make([]byte, l)
+			if typ != 0x04 {
+				for i := range pad {
+					pad[i] = byte(i*7) + byte(i>>8)
+				}
+			}
+			return append(out, pad...)
+		}
+	}
 	if rapid.IntRange(0, 2).Draw(t, "tlv?") == 0 {
 		return nil
 	}
@@ -589,11 +620,31 @@ func c26GenHeader(t *rapid.T, st *vfkit.Stats) ([]byte, c26Expect) {
 		sp, dp := c26GenPort(t, "sport"), c26GenPort(t, "dport")
 		ss, ds := src.String(), dst.String()
 		if fam == "TCP6" {
-			switch rapid.IntRange(0, 2).Draw(t, "v6-text") {
-			case 1:
-				ss, ds = src.StringExpanded(), dst.StringExpanded()
-			case 2:
-				ss, ds = strings.ToUpper(ss), strings.ToUpper(ds)
+			spell := func(a netip.Addr, how int) string {
+				switch how {
+				case 1:
+					return a.StringExpanded()
+				case 2:
+					return strings.ToUpper(a.String())
+				case 3: // compressed form, every group written with its leading zeros
+					parts := strings.Split(a.String(), ":")
+					for i, p := range parts {
+						if p != "" && !strings.Contains(p, ".") {
+							parts[i] = strings.Repeat("0", 4-len(p)) + p
+						}
+					}
+					return strings.Join(parts, ":")
+				case 4: // IPv4-mapped in pure hex spelling (::ffff:c000:20a)
+					if a.Is4In6() {
+						b := a.As16()
+						return fmt.Sprintf("::ffff:%x:%x", uint16(b[12])<<8|uint16(b[13]), uint16(b[14])<<8|uint16(b[15]))
+					}
+				}
+				return a.String() // canonical; dotted tail for IPv4-mapped
+			}
+			ss, ds = spell(src, rapid.IntRange(0, 4).Draw(t, "v6-text-src")), spell(dst, rapid.IntRange(0, 4).Draw(t, "v6-text-dst"))
+			if src.Is4In6() || dst.Is4In6() {
+				kind = "v1-tcp6-v4mapped"
 			}
 		}
 		line := fmt.Sprintf("PROXY %s %s %s %d %d\r\n", fam, ss, ds, sp, dp)
@@ -646,13 +697,16 @@ func c26GenHeader(t *rapid.T, st *vfkit.Stats) ([]byte, c26Expect) {
 		}
 		sp, dp := c26GenPort(t, "sport"), c26GenPort(t, "dport")
 		payload := c26V2AddrBlock(src, dst, sp, dp)
-		tlv := c26GenTLVs(t)
+		tlv := c26GenTLVs(t, len(payload))
 		payload = append(payload, tlv...)
 		cmdHigh := byte(0x20)
 		h := c26V2Header(cmdHigh|0x01, c.b, payload)
 		cl := c.class
 		if len(tlv) > 0 {
 			cl += "+tlv"
+		}
+		if len(payload) >= 4000 {
+			cl += "+big"
 		}
 		return h, c26Expect{Header: true, HeaderLen: len(h), Strict: c.strict, HasAddr: true, Src: src, Dst: dst, SPort: sp, DPort: dp, Class: cl}
 	case "v2-local":
@@ -667,7 +721,7 @@ func c26GenHeader(t *rapid.T, st *vfkit.Stats) ([]byte, c26Expect) {
 			fb = 0x21
 			payload = c26V2AddrBlock(c26GenAddr6(t, "src"), c26GenAddr6(t, "dst"), c26GenPort(t, "sport"), c26GenPort(t, "dport"))
 		case 3:
-			payload = c26GenTLVs(t)
+			payload = c26GenTLVs(t, 0)
 		}
 		h := c26V2Header(0x20, fb, payload)
 		cl := "v2-local"
